@@ -851,8 +851,8 @@ impl<'a, Traits: ?Sized + Trait, M: MemBuilder> IntoIterator for &'a mut AnyVec<
 /// [`AnyVec::downcast_ref`]: crate::AnyVec::downcast_ref
 pub struct AnyVecRef<'a, T: 'static, M: MemBuilder + 'a>(
     pub(crate) AnyVecTyped<'a, T, M>,
-    // This is shared view. Should be Send/Sync as &[T].
-    pub(crate) PhantomData<&'a T>
+    // This is shared view. Should be Send/Sync as &[T] and &AnyVecRaw.
+    pub(crate) PhantomData<(&'a T, &'a AnyVecRaw<M>)>
 );
 impl<'a, T: 'static, M: MemBuilder + 'a> Clone for AnyVecRef<'a, T, M>{
     #[inline]
